@@ -76,6 +76,8 @@ def _classify(sym):
     ('offset', 'start'|'end') for an element of the part-offset array at the cursor / at the cursor + 1"""
     if not isinstance(sym, tuple) or not sym:
         return None
+    if sym[0] in ('first', 'last') and len(sym) == 2:
+        return ('optoffset', 'start' if sym[0] == 'first' else 'end')     # Option<&offset>: None when there are no parts
     st = absint.term_str(sym)
     idx = [x for x in absint.subterms(sym) if isinstance(x, tuple) and x and (x[0] in ('elemref_at', 'at_index', 'index') or
                                                                            (x[0] == 'i' and len(x) == 2))]
@@ -84,6 +86,16 @@ def _classify(sym):
         return ('offset', 'end' if nxt else 'start')
     if sym[0] == 'ret' or (sym[0] == 'proj' and len(sym[2]) == 1) or (sym[0] == 'load' and len(sym[1][1]) == 1):
         return ('count',)
+    return None
+
+
+def _int_of(x):
+    for _ in range(3):
+        if isinstance(x, tuple) and x and x[0] in ('constref', 'ref') and isinstance(x[1], tuple) and x[1] and x[1][0] == 'int':
+            return x[1][1]
+        if isinstance(x, tuple) and x and x[0] == 'int':
+            return x[1]
+        return None
     return None
 
 
@@ -125,6 +137,10 @@ def accept_rule(ctx, F):
                 for x in (t[2], t[3]):
                     if x[0] == 'int':
                         ops.append(('k', x[1]))
+                    elif is_agg(x, 'std::option::Option', 'None'):
+                        ops.append(('k', None))
+                    elif is_agg(x, 'std::option::Option', 'Some') and _int_of(agg_field(x, '0')) is not None:
+                        ops.append(('k', ('some', _int_of(agg_field(x, '0')))))
                     else:
                         c = _classify(x)
                         if c is None:
@@ -144,17 +160,30 @@ def accept_rule(ctx, F):
                     if o[0] == 's' and o[1] not in [y[0] for y in syms]:
                         syms.append((o[1], o[2]))
             witness = None
-            for vals in itertools.product(D, repeat=len(syms)):
+            doms = [((None,) + tuple(('some', d) for d in D)) if c[0] == 'optoffset' else D for _, c in syms]
+            for vals in itertools.product(*doms):
                 env = {s_: val for (s_, _), val in zip(syms, vals)}
+                if any(op in ('Lt', 'Le') and (not isinstance(env.get(a[1], 0) if a[0] == 's' else a[1], int) or
+                                               not isinstance(env.get(b[1], 0) if b[0] == 's' else b[1], int))
+                       for op, a, b, tv in atoms):
+                    continue                     # an optional value is only ever compared for equality
                 def ev(o):
                     return o[1] if o[0] == 'k' else env[o[1]]
-                if not all({'Lt': ev(a) < ev(b), 'Le': ev(a) <= ev(b), 'Eq': ev(a) == ev(b), 'Ne': ev(a) != ev(b)}[op] == tv
-                           for op, a, b, tv in atoms):
+                def rel(op, x, y):
+                    if op == 'Eq':
+                        return x == y
+                    if op == 'Ne':
+                        return x != y
+                    return x < y if op == 'Lt' else x <= y
+                if not all(rel(op, ev(a), ev(b)) == tv for op, a, b, tv in atoms):
                     continue
                 # validity of this assignment
                 cnt = [env[s_] for s_, c in syms if c == ('count',)]
                 st_ = [env[s_] for s_, c in syms if c == ('offset', 'start')]
                 en_ = [env[s_] for s_, c in syms if c == ('offset', 'end')]
+                # an optional offset that is there counts as that offset; one that is not (no parts at all) constrains nothing
+                st_ += [env[s_][1] for s_, c in syms if c == ('optoffset', 'start') and env[s_] is not None]
+                en_ += [env[s_][1] for s_, c in syms if c == ('optoffset', 'end') and env[s_] is not None]
                 valid = all(c >= 0 for c in cnt) and all(x >= 0 for x in st_ + en_)
                 valid = valid and all(a <= b for a in st_ for b in en_)
                 hi = en_ if en_ else st_          # the last part ends at NumPoints
@@ -164,8 +193,9 @@ def accept_rule(ctx, F):
                     break
             n += 1
             inst = "%s :: %s" % (f["def"].split("::")[-1], "; ".join("%s%s(%s, %s)" % ("" if tv else "not ", op,
-                                 a[1] if a[0] == 'k' else a[2][-1] if a[2][0] == 'offset' else 'count',
-                                 b[1] if b[0] == 'k' else b[2][-1] if b[2][0] == 'offset' else 'count') for op, a, b, tv in atoms))
+                                 a[1] if a[0] == 'k' else a[2][-1] if a[2][0] in ('offset', 'optoffset') else 'count',
+                                 b[1] if b[0] == 'k' else b[2][-1] if b[2][0] in ('offset', 'optoffset') else 'count')
+                                 for op, a, b, tv in atoms))
             ctx.ob("C03.accept", inst, witness is None,
                    "the error is returned only when the record is invalid" if witness is None else
                    "a VALID record is rejected, e.g. %s" % witness, site=ctx.site_of(F, f["def"]),
